@@ -1,4 +1,4 @@
-//! Harnesses mounted inside `v5::shared` (connection-state slice): ONE operation of `MqttShared`
+//! Harnesses mounted inside `v3::shared` (MQTT 3.1.1 twin of h_v5_shared.rs) (connection-state slice): ONE operation of `MqttShared`
 //! from an ARBITRARY valid queue state (inductive step), real shared.rs over the container /
 //! channel / io models of DESIGN.md section 3.
 use super::*;
@@ -6,42 +6,28 @@ use crate::{vio, vk};
 #[cfg(kani)]
 use crate::mvec::Vec;
 use std::task::Poll;
+use crate::types::QoS;
 
-/// stand-ins for the non-PUBLISH encoders in harnesses that only write PUBLISH packets (CBMC does
-/// not see the discriminant of `Encoded` as a constant and would expand all fifteen packet
-/// encoders); reaching one of them is an assertion failure
+/// Abstraction of the v3 encoder for harnesses whose subject is the connection state, not the byte
+/// layout (that is C01/C09): every successfully encoded item becomes a 4-byte summary
+/// `[first byte per MQTT 3.1.1 section 2.2, 2, packet id hi, lo]`; never fails.
 #[cfg(kani)]
-pub(crate) fn stub_packet_encode(_p: &codec::Packet, _buf: &mut BytePages, _size: u32) -> Result<(), error::EncodeError> {
-    panic!("unreachable: Packet encoder reached from a PUBLISH-only harness")
-}
-#[cfg(kani)]
-pub(crate) fn stub_packet_size(_p: &codec::Packet, _limit: u32) -> usize {
-    panic!("unreachable: Packet size reached from a PUBLISH-only harness")
-}
-
-/// Abstraction of the v5 encoder for harnesses whose subject is the connection state, not the
-/// byte layout (that is C01/C09): every successfully encoded item becomes a 4-byte summary
-/// `[first byte per MQTT 5 section 2.1.2, 2, packet id hi, lo]`; never fails. CBMC does not see the
-/// discriminant of `Encoded` as a constant, so with the real encoder every `io.encode` call
-/// expands all fifteen packet encoders.
-#[cfg(kani)]
-pub(crate) fn stub_encodev5(_c: &codec::Codec, item: Encoded, dst: &mut BytePages) -> Result<(), error::EncodeError> {
+pub(crate) fn stub_encodev3(_c: &codec::Codec, item: Encoded, dst: &mut BytePages) -> Result<(), EncodeError> {
     let (first, id): (u8, u16) = match &item {
         Encoded::Packet(p) => match p {
-            Packet::PublishAck(a) => (0x40, a.packet_id.get()),
-            Packet::PublishReceived(a) => (0x50, a.packet_id.get()),
-            Packet::PublishRelease(a) => (0x62, a.packet_id.get()),
-            Packet::PublishComplete(a) => (0x70, a.packet_id.get()),
-            Packet::Subscribe(a) => (0x82, a.packet_id.get()),
-            Packet::SubscribeAck(a) => (0x90, a.packet_id.get()),
-            Packet::Unsubscribe(a) => (0xA2, a.packet_id.get()),
-            Packet::UnsubscribeAck(a) => (0xB0, a.packet_id.get()),
-            Packet::PingRequest => (0xC0, 0),
-            Packet::PingResponse => (0xD0, 0),
-            Packet::Disconnect(_) => (0xE0, 0),
-            Packet::Auth(_) => (0xF0, 0),
-            Packet::Connect(_) => (0x10, 0),
-            Packet::ConnectAck(_) => (0x20, 0),
+            codec::Packet::PublishAck { packet_id } => (0x40, packet_id.get()),
+            codec::Packet::PublishReceived { packet_id } => (0x50, packet_id.get()),
+            codec::Packet::PublishRelease { packet_id } => (0x62, packet_id.get()),
+            codec::Packet::PublishComplete { packet_id } => (0x70, packet_id.get()),
+            codec::Packet::Subscribe { packet_id, .. } => (0x82, packet_id.get()),
+            codec::Packet::SubscribeAck { packet_id, .. } => (0x90, packet_id.get()),
+            codec::Packet::Unsubscribe { packet_id, .. } => (0xA2, packet_id.get()),
+            codec::Packet::UnsubscribeAck { packet_id } => (0xB0, packet_id.get()),
+            codec::Packet::PingRequest => (0xC0, 0),
+            codec::Packet::PingResponse => (0xD0, 0),
+            codec::Packet::Disconnect => (0xE0, 0),
+            codec::Packet::Connect(_) => (0x10, 0),
+            codec::Packet::ConnectAck(_) => (0x20, 0),
         },
         Encoded::Publish(p, _) => (
             0x30 | ((p.dup as u8) << 3) | (u8::from(p.qos) << 1) | (p.retain as u8),
@@ -53,58 +39,82 @@ pub(crate) fn stub_encodev5(_c: &codec::Codec, item: Encoded, dst: &mut BytePage
     std::mem::forget(item);
     Ok(())
 }
+#[cfg(kani)]
+pub(crate) fn stub_packet_encode(_p: &codec::Packet, _buf: &mut BytePages) -> Result<(), EncodeError> {
+    panic!("unreachable")
+}
+
+/// harness-side twin of `AckType` (which has no PartialEq in v3)
+#[derive(Copy, Clone, PartialEq, Eq, Debug)]
+enum K {
+    Publish,
+    Receive,
+    Complete,
+    Subscribe,
+    Unsubscribe,
+}
+impl K {
+    fn real(self) -> AckType {
+        match self {
+            K::Publish => AckType::Publish,
+            K::Receive => AckType::Receive,
+            K::Complete => AckType::Complete,
+            K::Subscribe => AckType::Subscribe,
+            K::Unsubscribe => AckType::Unsubscribe,
+        }
+    }
+    fn of(t: AckType) -> K {
+        match t {
+            AckType::Publish => K::Publish,
+            AckType::Receive => K::Receive,
+            AckType::Complete => K::Complete,
+            AckType::Subscribe => K::Subscribe,
+            AckType::Unsubscribe => K::Unsubscribe,
+        }
+    }
+}
 
 fn nz(v: u16) -> num::NonZeroU16 {
     vk::assume(v != 0);
     num::NonZeroU16::new(v).unwrap()
 }
-fn any_acktype() -> AckType {
+fn any_acktype() -> K {
     let k = vk::any_u8();
     vk::assume(k < 5);
     match k {
-        0 => AckType::Publish,
-        1 => AckType::Receive,
-        2 => AckType::Complete,
-        3 => AckType::Subscribe,
-        _ => AckType::Unsubscribe,
+        0 => K::Publish,
+        1 => K::Receive,
+        2 => K::Complete,
+        3 => K::Subscribe,
+        _ => K::Unsubscribe,
     }
 }
-fn mk_ack(kind: AckType, id: num::NonZeroU16) -> Ack {
+fn mk_ack(kind: K, id: num::NonZeroU16) -> Ack {
     match kind {
-        AckType::Publish => Ack::Publish(codec::PublishAck { packet_id: id, ..Default::default() }),
-        AckType::Receive => Ack::Receive(codec::PublishAck { packet_id: id, ..Default::default() }),
-        AckType::Complete => Ack::Complete(codec::PublishAck2 { packet_id: id, ..Default::default() }),
-        AckType::Subscribe => Ack::Subscribe(codec::SubscribeAck {
-            packet_id: id,
-            properties: Default::default(),
-            reason_string: None,
-            status: Vec::new(),
-        }),
-        AckType::Unsubscribe => Ack::Unsubscribe(codec::UnsubscribeAck {
-            packet_id: id,
-            properties: Default::default(),
-            reason_string: None,
-            status: Vec::new(),
-        }),
+        K::Publish => Ack::Publish(id),
+        K::Receive => Ack::Receive(id),
+        K::Complete => Ack::Complete(id),
+        K::Subscribe => Ack::Subscribe { packet_id: id, status: Vec::new() },
+        K::Unsubscribe => Ack::Unsubscribe(id),
     }
 }
-fn ack_kind(a: &Ack) -> AckType {
+fn ack_kind(a: &Ack) -> K {
     match a {
-        Ack::Publish(_) => AckType::Publish,
-        Ack::Receive(_) => AckType::Receive,
-        Ack::Complete(_) => AckType::Complete,
-        Ack::Subscribe(_) => AckType::Subscribe,
-        Ack::Unsubscribe(_) => AckType::Unsubscribe,
+        Ack::Publish(_) => K::Publish,
+        Ack::Receive(_) => K::Receive,
+        Ack::Complete(_) => K::Complete,
+        Ack::Subscribe { .. } => K::Subscribe,
+        Ack::Unsubscribe(_) => K::Unsubscribe,
     }
 }
 fn new_shared(io: &vio::IoH) -> Rc<MqttShared> {
-    Rc::new(MqttShared::new(io.ioref(), codec::Codec::new(), Rc::new(MqttSinkPool::default())))
+    Rc::new(MqttShared::new(io.ioref(), codec::Codec::new(), vk::any_bool(), Rc::new(MqttSinkPool::default())))
 }
 
 /// what the harness keeps about one outstanding send of the pre-state
 struct Out {
     id: num::NonZeroU16,
-    tp: AckType,
+    tp: K,
     rx: Option<pool::Receiver<Ack>>,
 }
 const NOUT: usize = 3;
@@ -126,7 +136,7 @@ fn arb_outstanding(sh: &MqttShared, n: usize) -> ([Option<Out>; NOUT], usize) {
         let (tx, rx) = sh.pool.queue.channel();
         {
             let mut q = sh.queues.borrow_mut();
-            q.inflight.push_back((id, Some(tx), tp));
+            q.inflight.push_back((id, Some(tx), tp.real()));
             q.inflight_ids.insert(id);
         }
         outs[i] = Some(Out { id, tp, rx: Some(rx) });
@@ -135,7 +145,7 @@ fn arb_outstanding(sh: &MqttShared, n: usize) -> ([Option<Out>; NOUT], usize) {
     (outs, n)
 }
 /// Some(Ok(kind, id)) = completed successfully with that ack, Some(Err) = failed (disconnected), None = still waiting
-fn peek(rx: &pool::Receiver<Ack>) -> Option<Result<(AckType, num::NonZeroU16), ()>> {
+fn peek(rx: &pool::Receiver<Ack>) -> Option<Result<(K, num::NonZeroU16), ()>> {
     let mut cx = vio::noop_cx();
     match rx.poll_recv(&mut cx) {
         Poll::Pending => None,
@@ -181,12 +191,12 @@ fn ack_step(nq: usize) {
             if answers_oldest {
                 assert!(res.is_ok(), "the correct acknowledgement of the oldest send was refused");
                 let q = sh.queues.borrow();
-                if kind == AckType::Receive {
+                if kind == K::Receive {
                     // QoS 2: the exchange continues, the id stays in use, now expecting PUBCOMP
                     assert!(q.inflight.len() == n);
                     assert!(q.inflight_ids.contains(&id));
                     let last = q.inflight.get(n - 1).unwrap();
-                    assert!(last.0 == id && last.2 == AckType::Complete);
+                    assert!(last.0 == id && K::of(last.2) == K::Complete);
                 } else {
                     assert!(q.inflight.len() == n - 1);
                     assert!(!q.inflight_ids.contains(&id), "identifier not released after its exchange finished");
@@ -208,14 +218,14 @@ vharness! {
     //@ props: C06
     //@ env: VERIF_MVEC_CAP=1
     //@ tier: quick
-    //@ functions: v5::shared::MqttShared::{pkt_ack, pkt_ack_inner, close, clear_queues}, Ack::{packet_id, is_match, packet_type}, pool channel (model), VecDeque/HashSet (models), IoRef (model)
+    //@ functions: v3::shared::MqttShared::{pkt_ack, pkt_ack_inner, close, clear_queues}, Ack::{packet_id, is_match, packet_type}, pool channel (model), VecDeque/HashSet (models), IoRef (model)
     //@ bounds: ONE acknowledgement (any of the 5 kinds, any non-zero id) against an arbitrary outstanding queue of exactly 0 sends (ids: u16 full width, pairwise distinct; each expecting any ack type); no parked waiters
     //@ assumes: representation invariant of the queue (distinct ids, id set == ids of the queue); every outstanding send has a reply channel (awaiting APIs)
     //@ mem: 16  timeout: 900
     //@ desc: ack routing step: a send completes successfully only with the ack of the type it expects carrying its id, and only the OLDEST send can complete; any other ack completes nothing, never panics, and ends the connection (close requested, every pending send resolves disconnected)
     //@ stubs: yes
-    #[kani::stub(<codec::Codec as Encoder>::encodev, stub_encodev5)]
-    fn sh5_ack_step_n0() unwind(5) {
+    #[kani::stub(<codec::Codec as Encoder>::encodev, stub_encodev3)]
+    fn sh3_ack_step_n0() unwind(5) {
         ack_step(0)
     }
 }
@@ -223,14 +233,14 @@ vharness! {
     //@ props: C06
     //@ env: VERIF_MVEC_CAP=1
     //@ tier: quick
-    //@ functions: v5::shared::MqttShared::{pkt_ack, pkt_ack_inner, close, clear_queues}, Ack::{packet_id, is_match, packet_type}, pool channel (model), VecDeque/HashSet (models), IoRef (model)
+    //@ functions: v3::shared::MqttShared::{pkt_ack, pkt_ack_inner, close, clear_queues}, Ack::{packet_id, is_match, packet_type}, pool channel (model), VecDeque/HashSet (models), IoRef (model)
     //@ bounds: ONE acknowledgement (any of the 5 kinds, any non-zero id) against an arbitrary outstanding queue of exactly 1 sends (ids: u16 full width, pairwise distinct; each expecting any ack type); no parked waiters
     //@ assumes: representation invariant of the queue (distinct ids, id set == ids of the queue); every outstanding send has a reply channel (awaiting APIs)
     //@ mem: 16  timeout: 900
     //@ desc: ack routing step: a send completes successfully only with the ack of the type it expects carrying its id, and only the OLDEST send can complete; any other ack completes nothing, never panics, and ends the connection (close requested, every pending send resolves disconnected)
     //@ stubs: yes
-    #[kani::stub(<codec::Codec as Encoder>::encodev, stub_encodev5)]
-    fn sh5_ack_step_n1() unwind(5) {
+    #[kani::stub(<codec::Codec as Encoder>::encodev, stub_encodev3)]
+    fn sh3_ack_step_n1() unwind(5) {
         ack_step(1)
     }
 }
@@ -238,14 +248,14 @@ vharness! {
     //@ props: C06
     //@ env: VERIF_MVEC_CAP=1
     //@ tier: quick
-    //@ functions: v5::shared::MqttShared::{pkt_ack, pkt_ack_inner, close, clear_queues}, Ack::{packet_id, is_match, packet_type}, pool channel (model), VecDeque/HashSet (models), IoRef (model)
+    //@ functions: v3::shared::MqttShared::{pkt_ack, pkt_ack_inner, close, clear_queues}, Ack::{packet_id, is_match, packet_type}, pool channel (model), VecDeque/HashSet (models), IoRef (model)
     //@ bounds: ONE acknowledgement (any of the 5 kinds, any non-zero id) against an arbitrary outstanding queue of exactly 2 sends (ids: u16 full width, pairwise distinct; each expecting any ack type); no parked waiters
     //@ assumes: representation invariant of the queue (distinct ids, id set == ids of the queue); every outstanding send has a reply channel (awaiting APIs)
     //@ mem: 16  timeout: 900
     //@ desc: ack routing step: a send completes successfully only with the ack of the type it expects carrying its id, and only the OLDEST send can complete; any other ack completes nothing, never panics, and ends the connection (close requested, every pending send resolves disconnected)
     //@ stubs: yes
-    #[kani::stub(<codec::Codec as Encoder>::encodev, stub_encodev5)]
-    fn sh5_ack_step_n2() unwind(5) {
+    #[kani::stub(<codec::Codec as Encoder>::encodev, stub_encodev3)]
+    fn sh3_ack_step_n2() unwind(5) {
         ack_step(2)
     }
 }
@@ -253,14 +263,14 @@ vharness! {
     //@ props: C06
     //@ env: VERIF_MVEC_CAP=1
     //@ tier: quick
-    //@ functions: v5::shared::MqttShared::{pkt_ack, pkt_ack_inner, close, clear_queues}, Ack::{packet_id, is_match, packet_type}, pool channel (model), VecDeque/HashSet (models), IoRef (model)
+    //@ functions: v3::shared::MqttShared::{pkt_ack, pkt_ack_inner, close, clear_queues}, Ack::{packet_id, is_match, packet_type}, pool channel (model), VecDeque/HashSet (models), IoRef (model)
     //@ bounds: ONE acknowledgement (any of the 5 kinds, any non-zero id) against an arbitrary outstanding queue of exactly 3 sends (ids: u16 full width, pairwise distinct; each expecting any ack type); no parked waiters
     //@ assumes: representation invariant of the queue (distinct ids, id set == ids of the queue); every outstanding send has a reply channel (awaiting APIs)
     //@ mem: 16  timeout: 900
     //@ desc: ack routing step: a send completes successfully only with the ack of the type it expects carrying its id, and only the OLDEST send can complete; any other ack completes nothing, never panics, and ends the connection (close requested, every pending send resolves disconnected)
     //@ stubs: yes
-    #[kani::stub(<codec::Codec as Encoder>::encodev, stub_encodev5)]
-    fn sh5_ack_step_n3() unwind(5) {
+    #[kani::stub(<codec::Codec as Encoder>::encodev, stub_encodev3)]
+    fn sh3_ack_step_n3() unwind(5) {
         ack_step(3)
     }
 }
@@ -368,21 +378,21 @@ macro_rules! readiness_inst {
             //@ props: C05 C13
             //@ env: VERIF_MVEC_CAP=1
             //@ tier: quick
-            //@ functions: v5::shared::MqttShared::{wait_readiness, is_ready, credit, enable_wr_backpressure}
+            //@ functions: v3::shared::MqttShared::{wait_readiness, is_ready, credit, enable_wr_backpressure}
             //@ bounds: literal number of outstanding sends per instance (0..=3); send limit: usize full width; back-pressure flag any
             //@ assumes: none
             //@ desc: admission step: a sender is parked iff outstanding >= limit or write back-pressure is on; credit()/is_ready() agree with that; parking changes nothing else
             //@ stubs: yes
-            #[kani::stub(<codec::Codec as Encoder>::encodev, stub_encodev5)]
+            #[kani::stub(<codec::Codec as Encoder>::encodev, stub_encodev3)]
             fn $name() unwind(5) {
                 readiness_step($n)
             }
         }
     };
 }
-readiness_inst!(sh5_readiness_n0, 0);
-readiness_inst!(sh5_readiness_n1, 1);
-readiness_inst!(sh5_readiness_n3, 3);
+readiness_inst!(sh3_readiness_n0, 0);
+readiness_inst!(sh3_readiness_n1, 1);
+readiness_inst!(sh3_readiness_n3, 3);
 
 fn ack_wake_step(w: usize) {
     vio::with_io(move |io| {
@@ -397,14 +407,14 @@ fn ack_wake_step(w: usize) {
         let (tx, rx) = sh.pool.queue.channel();
         {
             let mut q = sh.queues.borrow_mut();
-            q.inflight.push_back((id, Some(tx), tp));
+            q.inflight.push_back((id, Some(tx), tp.real()));
             q.inflight_ids.insert(id);
         }
         let rxs = arb_waiters(&sh, w);
         let res = sh.pkt_ack(mk_ack(tp, id));
         assert!(res.is_ok());
         // PUBREC does not finish the exchange: no slot is freed
-        let budget = if tp == AckType::Receive { 0 } else { 1 };
+        let budget = if tp == K::Receive { 0 } else { 1 };
         let signalled = check_wakes(&sh, &rxs, w, budget);
         // cancelled waiters in front of the woken one are discarded, the rest stays queued in order
         let q = sh.queues.borrow();
@@ -420,7 +430,7 @@ fn ack_wake_step(w: usize) {
         }
         assert!(q.waiters.len() >= live_after, "a parked live sender is no longer queued");
         vcover!(signalled == 1, "one sender woken");
-        vcover!(signalled == 0 && tp != AckType::Receive, "final ack, nobody to wake");
+        vcover!(signalled == 0 && tp != K::Receive, "final ack, nobody to wake");
         drop(q);
         std::mem::forget(rx);
         std::mem::forget(rxs);
@@ -433,22 +443,22 @@ macro_rules! ack_wake_inst {
             //@ props: C13 C05
             //@ env: VERIF_MVEC_CAP=1
             //@ tier: quick
-            //@ functions: v5::shared::MqttShared::{pkt_ack, pkt_ack_inner} (wake loops), pool channel (model)
+            //@ functions: v3::shared::MqttShared::{pkt_ack, pkt_ack_inner} (wake loops), pool channel (model)
             //@ bounds: one outstanding send (any expected ack type, any id) correctly acknowledged; literal number of parked senders per instance (1..=3), each live or cancelled (dropped future); limit and back-pressure flag any
             //@ assumes: none beyond the queue invariant
             //@ mem: 12  timeout: 900
             //@ desc: one wake-up per freed slot: a final acknowledgement releases exactly the FIRST live parked sender (cancelled ones are skipped, not counted), PUBREC releases nobody, nobody is failed, live senders not released stay queued
             //@ stubs: yes
-            #[kani::stub(<codec::Codec as Encoder>::encodev, stub_encodev5)]
+            #[kani::stub(<codec::Codec as Encoder>::encodev, stub_encodev3)]
             fn $name() unwind(6) {
                 ack_wake_step($w)
             }
         }
     };
 }
-ack_wake_inst!(sh5_ack_wake_w1, 1);
-ack_wake_inst!(sh5_ack_wake_w2, 2);
-ack_wake_inst!(sh5_ack_wake_w3, 3);
+ack_wake_inst!(sh3_ack_wake_w1, 1);
+ack_wake_inst!(sh3_ack_wake_w2, 2);
+ack_wake_inst!(sh3_ack_wake_w3, 3);
 
 fn wrb_off_step(n: usize, w: usize) {
     vio::with_io(move |io| {
@@ -491,21 +501,21 @@ macro_rules! wrb_off_inst {
             //@ props: C13 C05
             //@ env: VERIF_MVEC_CAP=1
             //@ tier: quick
-            //@ functions: v5::shared::MqttShared::{disable_wr_backpressure, enable_wr_backpressure}, pool channel (model)
+            //@ functions: v3::shared::MqttShared::{disable_wr_backpressure, enable_wr_backpressure}, pool channel (model)
             //@ bounds: literal outstanding sends (0..=1) and parked senders (2) per instance, each parked sender live or cancelled; streamed-send waiter absent / live / cancelled; limit: usize full width
             //@ assumes: none
             //@ mem: 12  timeout: 900
             //@ desc: back-pressure lifts: the flag clears, a paused streamed send resumes, and the free window slots (limit - outstanding) are handed to live parked senders in FIFO order: never more than free slots, and no live sender stays parked while a slot is free
             //@ stubs: yes
-            #[kani::stub(<codec::Codec as Encoder>::encodev, stub_encodev5)]
+            #[kani::stub(<codec::Codec as Encoder>::encodev, stub_encodev3)]
             fn $name() unwind(6) {
                 wrb_off_step($n, $w)
             }
         }
     };
 }
-wrb_off_inst!(sh5_wrb_off_n0_w2, 0, 2);
-wrb_off_inst!(sh5_wrb_off_n1_w2, 1, 2);
+wrb_off_inst!(sh3_wrb_off_n0_w2, 0, 2);
+wrb_off_inst!(sh3_wrb_off_n1_w2, 1, 2);
 
 fn set_cap_step(w: usize) {
     vio::with_io(move |io| {
@@ -525,14 +535,14 @@ vharness! {
     //@ props: C05 C13
     //@ env: VERIF_MVEC_CAP=1
     //@ tier: quick
-    //@ functions: v5::shared::MqttShared::set_cap
+    //@ functions: v3::shared::MqttShared::set_cap
     //@ bounds: connection set-up state (nothing outstanding), 3 senders parked before the limit was known (each live or cancelled), new limit 0..=4
     //@ assumes: set_cap is called with nothing outstanding (its call sites: right after the handshake)
     //@ mem: 12  timeout: 900
     //@ desc: the limit becomes known: at most `limit` live parked senders are released, FIFO, none stays parked while a slot is free
     //@ stubs: yes
-    #[kani::stub(<codec::Codec as Encoder>::encodev, stub_encodev5)]
-    fn sh5_set_cap_w3() unwind(7) {
+    #[kani::stub(<codec::Codec as Encoder>::encodev, stub_encodev3)]
+    fn sh3_set_cap_w3() unwind(7) {
         set_cap_step(3)
     }
 }
@@ -543,11 +553,11 @@ vharness! {
     //@ props: C06
     //@ env: VERIF_MVEC_CAP=1
     //@ tier: quick
-    //@ functions: v5::shared::MqttShared::{next_id, set_publish_id}
+    //@ functions: v3::shared::MqttShared::{next_id, set_publish_id}
     //@ bounds: id counter: every u16 value the code can store (0..=65534)
     //@ assumes: counter invariant: inflight_idx <= 65534 (next_id stores 0 instead of 65535)
     //@ desc: automatic identifiers are never 0, count 1..=65535 and wrap to 1; two consecutive ones differ; an explicit identifier is kept
-    fn sh5_next_id() unwind(3) {
+    fn sh3_next_id() unwind(3) {
         vio::with_io(move |io| {
             let sh = new_shared(io);
             let c = vk::any_u16();
@@ -559,7 +569,14 @@ vharness! {
             let b = sh.next_id().get();
             assert!(b != 0 && a != b);
             assert!(b == if a == u16::MAX { 1 } else { a + 1 });
-            let mut p = codec::Publish::default();
+            let mut p = codec::Publish {
+                dup: false,
+                retain: false,
+                qos: QoS::AtLeastOnce,
+                topic: ntex_bytes::ByteString::new(),
+                packet_id: None,
+                payload_size: 0,
+            };
             let want = vk::any_u16();
             p.packet_id = num::NonZeroU16::new(want);
             let got = sh.set_publish_id(&mut p).get();
@@ -575,10 +592,14 @@ vharness! {
 }
 
 fn any_publish(qos: QoS) -> (codec::Publish, Option<Bytes>) {
-    let mut p = codec::Publish::default();
-    p.qos = qos;
-    p.topic = ntex_bytes::ByteString::from_static("t");
-    p.payload_size = vk::any_u32();
+    let mut p = codec::Publish {
+        dup: false,
+        retain: false,
+        qos,
+        topic: ntex_bytes::ByteString::from_static("t"),
+        packet_id: None,
+        payload_size: vk::any_u32(),
+    };
     // complete payload (2 bytes) or a streamed one (no first chunk)
     let payload = if vk::any_bool() {
         vk::assume(p.payload_size == 2);
@@ -596,7 +617,7 @@ fn register_step(n: usize) {
         // peer Maximum Packet Size: unlimited, or so small that the PUBLISH cannot be encoded
         let tiny = vk::any_bool();
         if tiny {
-            sh.codec.set_max_outbound_size(8);
+            sh.codec.set_max_size(4);
         }
         let (outs, _) = arb_outstanding(&sh, n);
         let id = nz(vk::any_u16());
@@ -618,9 +639,9 @@ fn register_step(n: usize) {
             let (mut p, payload) = any_publish(QoS::AtLeastOnce);
             p.packet_id = Some(id);
             streamed = payload.is_none() && p.payload_size > 0;
-            sh.wait_publish_response(id, tp, p, payload)
+            sh.wait_publish_response(id, tp.real(), p, payload)
         } else {
-            sh.wait_response(id, tp)
+            sh.wait_response(id, tp.real())
         };
         let q = sh.queues.borrow();
         if in_use {
@@ -631,7 +652,7 @@ fn register_step(n: usize) {
                 assert!(!in_use);
                 assert!(q.inflight.len() == n + 1);
                 let last = q.inflight.get(n).unwrap();
-                assert!(last.0 == id && last.2 == tp && last.1.is_some());
+                assert!(last.0 == id && K::of(last.2) == tp && last.1.is_some());
                 assert!(q.inflight_ids.contains(&id));
                 assert!(peek(rx).is_none());
                 if publish {
@@ -671,36 +692,33 @@ macro_rules! register_inst {
             //@ props: C06
             //@ env: VERIF_MVEC_CAP=1
             //@ tier: quick
-            //@ functions: v5::shared::MqttShared::{wait_response, wait_publish_response, enable_streaming, check_streaming}, v5 Codec::encodev (real, through the IoRef model)
-            //@ bounds: literal number of outstanding sends per instance (0..=2, ids u16 full width, distinct); new send: any non-zero id, any expected ack type; PUBLISH with a complete 2-byte payload or streamed (declared size u32 full width) or SUBSCRIBE-style registration; peer Maximum Packet Size unlimited or 8 (encode fails)
+            //@ functions: v3::shared::MqttShared::{wait_response, wait_publish_response, enable_streaming, check_streaming}, v3 Codec::encodev (real, through the IoRef model)
+            //@ bounds: literal number of outstanding sends per instance (0..=2, ids u16 full width, distinct); new send: any non-zero id, any expected ack type; PUBLISH with a complete 2-byte payload or streamed (declared size u32 full width) or SUBSCRIBE-style registration; configured maximum outbound size unlimited or 4 (encode fails)
             //@ assumes: queue invariant
             //@ mem: 16  timeout: 900
-            //@ stubs: yes
             //@ desc: registering a send: an identifier still in use is refused (PacketIdInUse) and never queued twice; a successful registration appends exactly one entry at the back, reserves the id, writes exactly one PUBLISH; a send that fails locally leaves no entry, no reserved id, no bytes and no streaming state behind
-            #[kani::stub(<codec::Packet as codec::EncodeLtd>::encode, stub_packet_encode)]
-            #[kani::stub(<codec::Packet as codec::EncodeLtd>::encoded_size, stub_packet_size)]
             fn $name() unwind(5) {
                 register_step($n)
             }
         }
     };
 }
-register_inst!(sh5_register_n0, 0);
-register_inst!(sh5_register_n2, 2);
+register_inst!(sh3_register_n0, 0);
+register_inst!(sh3_register_n2, 2);
 
 // =============================================================================================
 // QoS 2 exchanges (C14)
-fn push_out(sh: &MqttShared, id: num::NonZeroU16, tp: AckType) -> pool::Receiver<Ack> {
+fn push_out(sh: &MqttShared, id: num::NonZeroU16, tp: K) -> pool::Receiver<Ack> {
     let (tx, rx) = sh.pool.queue.channel();
     let mut q = sh.queues.borrow_mut();
-    q.inflight.push_back((id, Some(tx), tp));
+    q.inflight.push_back((id, Some(tx), tp.real()));
     q.inflight_ids.insert(id);
     rx
 }
-fn rel(id: num::NonZeroU16) -> codec::PublishAck2 {
-    codec::PublishAck2 { packet_id: id, ..Default::default() }
+fn rel(id: num::NonZeroU16) -> num::NonZeroU16 {
+    id
 }
-fn is_ack(rx: &pool::Receiver<Ack>, kind: AckType, id: num::NonZeroU16) -> bool {
+fn is_ack(rx: &pool::Receiver<Ack>, kind: K, id: num::NonZeroU16) -> bool {
     peek(rx) == Some(Ok((kind, id)))
 }
 
@@ -712,14 +730,14 @@ fn qos2_rec_rel(nb: usize) {
         let a = nz(vk::any_u16());
         let b = nz(vk::any_u16());
         vk::assume(a != b);
-        let rx_a = push_out(&sh, a, AckType::Receive);
+        let rx_a = push_out(&sh, a, K::Receive);
         let mut rx_b = None;
         if nb > 0 {
-            rx_b = Some(push_out(&sh, b, AckType::Publish));
+            rx_b = Some(push_out(&sh, b, K::Publish));
         }
         // PUBREC(a): the sender obtains the receipt, the id stays in use, the exchange now waits for PUBCOMP
-        assert!(sh.pkt_ack(mk_ack(AckType::Receive, a)).is_ok());
-        assert!(is_ack(&rx_a, AckType::Receive, a));
+        assert!(sh.pkt_ack(mk_ack(K::Receive, a)).is_ok());
+        assert!(is_ack(&rx_a, K::Receive, a));
         {
             let q = sh.queues.borrow();
             assert!(q.inflight_ids.contains(&a));
@@ -729,7 +747,7 @@ fn qos2_rec_rel(nb: usize) {
                 assert!(q.inflight.get(0).unwrap().0 == b, "PUBREC reordered the sends that the peer acknowledges next");
             }
             let last = q.inflight.get(nb).unwrap();
-            assert!(last.0 == a && last.2 == AckType::Complete);
+            assert!(last.0 == a && K::of(last.2) == K::Complete);
         }
         // release: exactly one PUBREL carrying a
         let n0 = io.frames();
@@ -753,8 +771,8 @@ fn qos2_rec_rel(nb: usize) {
             e
         };
         let (_, tx, _) = entry.unwrap();
-        assert!(tx.unwrap().send(mk_ack(AckType::Complete, a)).is_ok(), "completion receiver already dropped");
-        assert!(is_ack(&rx_c, AckType::Complete, a), "release returned a receiver that is not connected to its own PUBCOMP entry");
+        assert!(tx.unwrap().send(mk_ack(K::Complete, a)).is_ok(), "completion receiver already dropped");
+        assert!(is_ack(&rx_c, K::Complete, a), "release returned a receiver that is not connected to its own PUBCOMP entry");
         assert!(!io.shutdown_requested());
         std::mem::forget((rx_a, rx_b, rx_c));
         std::mem::forget(sh);
@@ -766,34 +784,34 @@ macro_rules! qos2_rec_rel_inst {
             //@ props: C14 C06
             //@ env: VERIF_MVEC_CAP=1
             //@ tier: quick
-            //@ functions: v5::shared::MqttShared::{pkt_ack, pkt_ack_inner (PUBREC branch), release_publish}, pool channel (model)
+            //@ functions: v3::shared::MqttShared::{pkt_ack, pkt_ack_inner (PUBREC branch), release_publish}, pool channel (model)
             //@ bounds: one exactly-once send (any id) with a literal number (0/1) of other sends queued behind it (any other id)
-            //@ assumes: queue invariant; v5 encoder abstracted to first byte + packet id (decided by C01/C09)
+            //@ assumes: queue invariant; v3 encoder abstracted to first byte + packet id (decided by C01/C09)
             //@ mem: 16  timeout: 1200
             //@ stubs: yes
             //@ desc: PUBREC delivers the receipt to its sender, keeps the id reserved and re-queues the exchange BEHIND the sends the peer acknowledges next; release writes exactly one PUBREL with its own id and returns the receiver its own PUBCOMP will complete; a second release writes nothing
-            #[kani::stub(<codec::Codec as Encoder>::encodev, stub_encodev5)]
+            #[kani::stub(<codec::Codec as Encoder>::encodev, stub_encodev3)]
             fn $name() unwind(5) {
                 qos2_rec_rel($nb)
             }
         }
     };
 }
-qos2_rec_rel_inst!(sh5_qos2_rec_rel_b0, 0);
-qos2_rec_rel_inst!(sh5_qos2_rec_rel_b1, 1);
+qos2_rec_rel_inst!(sh3_qos2_rec_rel_b0, 0);
+qos2_rec_rel_inst!(sh3_qos2_rec_rel_b1, 1);
 
 vharness! {
     //@ props: C14 C06
     //@ env: VERIF_MVEC_CAP=1
     //@ tier: quick
-    //@ functions: v5::shared::MqttShared::{pkt_ack, pkt_ack_inner (PUBCOMP branch)}
+    //@ functions: v3::shared::MqttShared::{pkt_ack, pkt_ack_inner (PUBCOMP branch)}
     //@ bounds: one exactly-once send waiting for PUBCOMP (any id), already released or not (the pending-release slot full or empty); one parked sender (live or cancelled)
     //@ assumes: queue invariant
     //@ mem: 16  timeout: 1200
     //@ stubs: yes
     //@ desc: PUBCOMP completes the releasing task's receiver with that PUBCOMP, frees the id and the window slot (one parked sender released), leaves nothing behind in the pending-release slot
-    #[kani::stub(<codec::Codec as Encoder>::encodev, stub_encodev5)]
-    fn sh5_qos2_comp() unwind(5) {
+    #[kani::stub(<codec::Codec as Encoder>::encodev, stub_encodev3)]
+    fn sh3_qos2_comp() unwind(5) {
         vio::with_io(move |io| {
             let sh = new_shared(io);
             sh.cap.set(vk::any_usize());
@@ -812,9 +830,9 @@ vharness! {
                 }
             }
             let rxs = arb_waiters(&sh, 1);
-            assert!(sh.pkt_ack(mk_ack(AckType::Complete, a)).is_ok());
+            assert!(sh.pkt_ack(mk_ack(K::Complete, a)).is_ok());
             if let Some(rx) = held.as_ref() {
-                assert!(is_ack(rx, AckType::Complete, a), "exactly-once send not completed by its own PUBCOMP");
+                assert!(is_ack(rx, K::Complete, a), "exactly-once send not completed by its own PUBCOMP");
             }
             let q = sh.queues.borrow();
             assert!(q.rx.is_none(), "stale completion receiver left in the pending-release slot");
@@ -831,15 +849,15 @@ vharness! {
     //@ props: C14
     //@ env: VERIF_MVEC_CAP=1
     //@ tier: quick
-    //@ functions: v5::shared::MqttShared::{pkt_ack_inner (PUBREC branch), release_publish} (the single pending-release slot `rx`)
+    //@ functions: v3::shared::MqttShared::{pkt_ack_inner (PUBREC branch), release_publish} (the single pending-release slot `rx`)
     //@ bounds: two concurrently outstanding exactly-once sends (any distinct ids): a has received its PUBREC and is not yet released when PUBREC(b) arrives
     //@ assumes: queue invariant
     //@ mem: 16  timeout: 1200
     //@ stubs: yes
     //@ finding: known K4: the completion receiver of a PUBREC'd send is parked in ONE Option slot (`MqttSharedQueues.rx`); a second PUBREC overwrites (drops) it
     //@ desc: PUBREC for a second exactly-once send while the first is not yet released: releasing a must still write PUBREL(a) and return the receiver of a's own PUBCOMP; releasing b likewise
-    #[kani::stub(<codec::Codec as Encoder>::encodev, stub_encodev5)]
-    fn sh5_qos2_pair() unwind(5) {
+    #[kani::stub(<codec::Codec as Encoder>::encodev, stub_encodev3)]
+    fn sh3_qos2_pair() unwind(5) {
         vio::with_io(move |io| {
             let sh = new_shared(io);
             sh.cap.set(vk::any_usize());
@@ -847,7 +865,7 @@ vharness! {
             let b = nz(vk::any_u16());
             vk::assume(a != b);
             // state after PUBREC(a): [b: waits PUBREC, a: waits PUBCOMP], a's completion receiver pending release
-            let rx_b = push_out(&sh, b, AckType::Receive);
+            let rx_b = push_out(&sh, b, K::Receive);
             let (tx_ca, rx_ca) = sh.pool.queue.channel();
             {
                 let mut q = sh.queues.borrow_mut();
@@ -855,8 +873,8 @@ vharness! {
                 q.inflight_ids.insert(a);
                 q.rx = Some(rx_ca);
             }
-            assert!(sh.pkt_ack(mk_ack(AckType::Receive, b)).is_ok());
-            assert!(is_ack(&rx_b, AckType::Receive, b));
+            assert!(sh.pkt_ack(mk_ack(K::Receive, b)).is_ok());
+            assert!(is_ack(&rx_b, K::Receive, b));
             // a's completion must survive
             let front_alive = {
                 let q = sh.queues.borrow();
@@ -880,15 +898,15 @@ vharness! {
     //@ props: C05
     //@ env: VERIF_MVEC_CAP=1
     //@ tier: quick
-    //@ functions: v5::shared::MqttShared::{wait_readiness, wait_response, pkt_ack}
+    //@ functions: v3::shared::MqttShared::{wait_readiness, wait_response, pkt_ack}
     //@ bounds: send limit 1; schedule: S1 sends; S2 parks on the full window; the peer acknowledges S1 (S2 is released); optionally a NEW sender S3 arrives before the released S2 runs; S2 registers
     //@ assumes: senders follow the awaiting protocol of sink.rs: wait_readiness, then (when released) register
     //@ mem: 16  timeout: 1200
     //@ finding: known K5: admission (`wait_readiness`) compares only the queue length with the limit and does not count senders that were released but have not registered yet, and a released sender does not re-check
     //@ desc: the number of registered un-acknowledged sends never exceeds the limit along the schedule
     //@ stubs: yes
-    #[kani::stub(<codec::Codec as Encoder>::encodev, stub_encodev5)]
-    fn sh5_window_race() unwind(5) {
+    #[kani::stub(<codec::Codec as Encoder>::encodev, stub_encodev3)]
+    fn sh3_window_race() unwind(5) {
         vio::with_io(move |io| {
             let sh = new_shared(io);
             sh.set_cap(1);
@@ -901,7 +919,7 @@ vharness! {
             let w2 = sh.wait_readiness();
             assert!(w2.is_some());
             // ack of S1 releases S2
-            assert!(sh.pkt_ack(mk_ack(AckType::Subscribe, id(1))).is_ok());
+            assert!(sh.pkt_ack(mk_ack(K::Subscribe, id(1))).is_ok());
             assert!(peek_unit(w2.as_ref().unwrap()) == Some(true));
             // a new sender may arrive before S2's task runs
             let mut r3 = None;
